@@ -89,6 +89,7 @@ fn op_strings_mut(op: &mut Op) -> Option<&mut String> {
 pub fn minimise(plan: &HistPlan, focus: Focus, class: &str, client: usize) -> (HistPlan, usize) {
     let mut budget = 4000usize;
     let start_budget = budget;
+    start_minimisation(90);
     let mut best = plan.clone();
     // 1. drop the other clients
     if best.clients.len() > 1 {
